@@ -601,6 +601,34 @@ func definitelyNonNil(v ssa.Value, depth int) bool {
 	return false
 }
 
+// retResult returns the value a Return yields at index i. In functions with defers go/ssa spills
+// results through allocs (`*t0 = v; rundefers; t = *t0; return t`): the stored value is returned
+// when the store is in the same block before the RunDefers.
+func retResult(ret *ssa.Return, i int) ssa.Value {
+	v := ret.Results[i]
+	u, ok := v.(*ssa.UnOp)
+	if !ok || u.Op != token.MUL {
+		return v
+	}
+	al, ok := u.X.(*ssa.Alloc)
+	if !ok {
+		return v
+	}
+	var stored ssa.Value
+	for _, in := range ret.Block().Instrs {
+		if in == ssa.Instruction(u) {
+			break
+		}
+		if st, ok := in.(*ssa.Store); ok && st.Addr == al {
+			stored = st.Val
+		}
+	}
+	if stored != nil {
+		return stored
+	}
+	return v
+}
+
 // A Sink is a program point: the instruction and its block.
 type Sink struct {
 	Instr ssa.Instruction
@@ -622,7 +650,7 @@ func successReturns(fn *ssa.Function, idx int) []Sink {
 		if !ok || idx >= len(ret.Results) {
 			continue
 		}
-		v := ret.Results[idx]
+		v := retResult(ret, idx)
 		if phi, ok := v.(*ssa.Phi); ok && phi.Block() == b {
 			for k, e := range phi.Edges {
 				if !definitelyNonNil(e, 0) {
@@ -679,7 +707,7 @@ func boolReturns(fn *ssa.Function, idx int, want bool) []Sink {
 		if !ok || idx >= len(ret.Results) {
 			continue
 		}
-		v := ret.Results[idx]
+		v := retResult(ret, idx)
 		if bv, ok := boolConst(v); ok {
 			if bv == want {
 				out = append(out, Sink{Instr: ret, Desc: fmt.Sprintf("return %v", want)})
